@@ -422,6 +422,8 @@ pub fn expected_len(prog: &NetProgram, m: usize, site: usize, ai: usize) -> Opti
     let spec = prog.modules.get(m)?;
     let act = if site >= PE_SITE_BASE {
         return Some(64);
+    } else if site == START_SITE {
+        spec.start_acts.get(ai)?
     } else if site == END_SITE {
         spec.end_acts.get(ai)?
     } else if site >= RX_SITE_BASE {
@@ -431,7 +433,7 @@ pub fn expected_len(prog: &NetProgram, m: usize, site: usize, ai: usize) -> Opti
     };
     match act {
         Act::Send { body, .. } => Some(64 + crate::bodies::declared_len_uid(*body, uid_of(m, site, ai, 0))),
-        _ => None,
+        _ => None, // forwarded messages keep the length of the original
     }
 }
 
@@ -454,11 +456,15 @@ pub fn check_c12(prog: &NetProgram, res: &NetResult, info: &mut RunInfo) {
         }
         info.probe("invalid_node_rejected");
     }
+    let end_faults = prog.modules.iter().any(|m| m.end_err || m.panic_at == 200);
     if res.ok.is_none() {
-        if res.started {
+        if res.started && !end_faults {
             info.violate(Violation::new("C12", "run-error", format!("fault-free run returned errors {:?}", res.errors)));
         }
-        return;
+        if !res.started || !end_faults {
+            return;
+        }
+        info.probe("at_sim_end_failed_somewhere");
     }
     // expected start sequence: stage-major, depth-first pre-order, siblings in creation order
     let order = &res.build.order;
@@ -952,6 +958,8 @@ pub fn expected_len_uid(prog: &NetProgram, m: usize, site: usize, ai: usize, uid
     let spec = prog.modules.get(m)?;
     let act = if site >= PE_SITE_BASE {
         return Some(64);
+    } else if site == START_SITE {
+        spec.start_acts.get(ai)?
     } else if site == END_SITE {
         spec.end_acts.get(ai)?
     } else if site >= RX_SITE_BASE {
@@ -1030,8 +1038,9 @@ pub fn check_c13(prog: &NetProgram, faulty: &NetResult, twin: &NetResult, info: 
     // healthy modules: exactly what they would have seen had the faulty modules merely fallen silent
     // (the instant of at_sim_end is the end of the whole run, which depends on what the silent twin still has scheduled:
     // tear-down records are not part of "the messages and wake-ups a module receives")
+    // whether a healthy module is torn down at all is compared, the instant is not
     let sub = |res: &NetResult, m: usize| -> Vec<(u64, Ev)> {
-        res.trace.iter().filter(|r| r.m as usize == m && !matches!(r.ev, Ev::End { .. })).map(|r| (r.t, r.ev.clone())).collect()
+        res.trace.iter().filter(|r| r.m as usize == m).map(|r| (if matches!(r.ev, Ev::End { .. }) { 0 } else { r.t }, r.ev.clone())).collect()
     };
     let mut healthy_busy = false;
     for m in 0..nmod {
